@@ -1,3 +1,4 @@
+import Mp.ProofsArr2
 import Mp.ProofsFn
 import Mp.ProofsArr
 import Mp.AnyOfProofs
@@ -27,3 +28,9 @@ import Mp.ProofsSel2
 #print axioms Mp.L2.selectList_key
 #print axioms Mp.L2.projection_eq_select
 #print axioms Mp.L2.aggregate_projection_eq_select
+#print axioms Mp.isIndex_scaled
+#print axioms Mp.isIndex_up
+#print axioms Mp.index_spec_of
+#print axioms Mp.index_spec_scaled
+#print axioms Mp.index_spec_up
+#print axioms Mp.index_out_of_range_scaled
